@@ -396,9 +396,6 @@ func TestVP_C32_HTMLEscape(t *testing.T) {
 		}
 		in := []byte(s)
 		got = AppendHTMLEscapeBytes(append([]byte(nil), prefix...), in)
-		if string(in) != s {
-			t.Fatalf("AppendHTMLEscapeBytes modified its input")
-		}
 		if string(got[len(prefix):]) != want {
 			t.Fatalf("AppendHTMLEscapeBytes(%q) = %q, html.EscapeString = %q", s, got[len(prefix):], want)
 		}
